@@ -712,8 +712,16 @@ func sortedBeforeUse(info *types.Info, ft *ast.FuncType, body *ast.BlockStmt, rs
 			return true
 		}
 		name := callName(info, ce)
-		if strings.HasPrefix(name, "sort.") || strings.HasPrefix(name, "slices.Sort") {
-			ok = true
+		switch name {
+		case "sort.Strings", "sort.Ints", "sort.Float64s", "slices.Sort":
+			ok = true // total order on the collected elements themselves
+		case "sort.Slice", "sort.SliceStable", "slices.SortFunc", "slices.SortStableFunc":
+			// only a comparator that orders the collected elements themselves
+			// (possibly as the final tie-break) removes the map order; a
+			// comparator on a derived key leaves ties in iteration order
+			if len(ce.Args) == 2 && comparatorIsTotalOn(info, ce.Args[1], o) {
+				ok = true
+			}
 		}
 		return true
 	})
@@ -925,4 +933,42 @@ func dedupe(in []string) []string {
 		}
 	}
 	return out
+}
+
+// comparatorIsTotalOn: fn is a function literal whose last statement returns a
+// strict comparison of two elements of the collected slice o (S[i] < S[j]).
+func comparatorIsTotalOn(info *types.Info, fn ast.Expr, o types.Object) bool {
+	fl, ok := fn.(*ast.FuncLit)
+	if !ok || len(fl.Body.List) == 0 {
+		return false
+	}
+	rs, ok := fl.Body.List[len(fl.Body.List)-1].(*ast.ReturnStmt)
+	if !ok || len(rs.Results) != 1 {
+		return false
+	}
+	be, ok := rs.Results[0].(*ast.BinaryExpr)
+	if !ok || (be.Op != token.LSS && be.Op != token.GTR) {
+		return false
+	}
+	isElem := func(e ast.Expr) bool {
+		ie, ok := e.(*ast.IndexExpr)
+		if !ok {
+			// slices.SortFunc(a, b) passes the elements directly
+			if id, ok := e.(*ast.Ident); ok {
+				if v, ok := info.Uses[id].(*types.Var); ok && v.Parent() != nil && fl.Type.Params != nil {
+					for _, f := range fl.Type.Params.List {
+						for _, n := range f.Names {
+							if info.Defs[n] == types.Object(v) && !isIntegerT(v.Type()) {
+								return true
+							}
+						}
+					}
+				}
+			}
+			return false
+		}
+		id, ok := ie.X.(*ast.Ident)
+		return ok && info.Uses[id] == o
+	}
+	return isElem(be.X) && isElem(be.Y)
 }
